@@ -880,6 +880,9 @@ func (d *dom256) first() int {
 func (d *dom256) and(o *dom256) dom256 {
 	return dom256{d[0] & o[0], d[1] & o[1], d[2] & o[2], d[3] & o[3]}
 }
+func (d dom256) or(o dom256) dom256 {
+	return dom256{d[0] | o[0], d[1] | o[1], d[2] | o[2], d[3] | o[3]}
+}
 func (d *dom256) andNot(o *dom256) dom256 {
 	return dom256{d[0] &^ o[0], d[1] &^ o[1], d[2] &^ o[2], d[3] &^ o[3]}
 }
